@@ -131,6 +131,33 @@ pub fn sudo_update_params(
 ) -> Result<Response, ContractError> {
     let mut params = SUDO_PARAMS.load(deps.storage)?;
 
+    params.code_id = param_msg.code_id.unwrap_or(params.code_id);
+
+    if let Some(frozen) = param_msg.frozen {
+        params.frozen = frozen;
+    }
+
+    if let Some(creation_fee) = param_msg.creation_fee {
+        params.creation_fee = creation_fee;
+    }
+
+    // add new code ids, then rm code ids
+    if let Some(add_sg721_code_ids) = param_msg.add_sg721_code_ids {
+        for code_id in add_sg721_code_ids {
+            params.allowed_sg721_code_ids.push(code_id);
+        }
+    }
+    params.allowed_sg721_code_ids.dedup();
+    if let Some(rm_sg721_code_ids) = param_msg.rm_sg721_code_ids {
+        for code_id in rm_sg721_code_ids {
+            params.allowed_sg721_code_ids.retain(|&x| x != code_id);
+        }
+    }
+
+    params.max_trading_offset_secs = param_msg
+        .max_trading_offset_secs
+        .unwrap_or(params.max_trading_offset_secs);
+
     params.max_token_limit = param_msg
         .extension
         .max_token_limit
